@@ -21,7 +21,7 @@ ANCHORS = ["raggedarray/__init__.py::RaggedArray.sum", "raggedarray/__init__.py:
 OPS = ["sum0", "np.sum0", "mean0", "np.mean0", "col_counts", "getcol"]
 FLOOR_TAGS = ["op:" + o for o in OPS] + ["kind:b", "kind:i", "kind:u", "kind:f", "e-first", "e-last", "e-mid", "e-consec", "e-none", "very-different-lengths",
                                          "recv:fresh", "recv:lazyrows", "recv:lazycols+2", "recv:lazycols-1", "recv:lazychain", "getcol:last", "getcol:0", "axis:numpy-integer", "v:nonfinite"]
-FLOOR_MONITORS = ["c09:compare"]
+FLOOR_MONITORS = ["c09:compare", "c09:result-independent"]
 FP_STRICT = True       # a floating-point event inside the library that the dense computation does not have is a violation (shard.FpMonitor)
 N_RANDOM = {"quick": 30000, "thorough": 300000}
 
@@ -101,6 +101,19 @@ def run(case):
         return violated("%s gives %s, the rows that reach each column give %s" % (desc, short(g, 200), short(exp, 200)), tags, got=g, expected=exp)
     if not lists_same(peek(ra), before):
         return violated("%s modified its operand" % desc, tags)
+    # the result belongs to the caller: overwriting it must not change what the array (or an array derived from it) answers next time
+    CTX.tick("c09:result-independent")
+    first = np.array(g, copy=True)
+    if g.flags.writeable and g.size:
+        g[...] = np.array(7, dtype=g.dtype) if g.dtype.kind != "b" else True
+        again = attempt({"sum0": lambda: ra.sum(axis=0), "np.sum0": lambda: np.sum(ra, axis=0), "mean0": lambda: ra.mean(axis=0), "np.mean0": lambda: np.mean(ra, axis=0),
+                         "col_counts": lambda: ra.col_counts(), "getcol": lambda: ra.get_column_values(j)}[op])
+        if not again.ok or not same_array(np.asarray(again.value), first, dtype=True):
+            return violated("%s: after the caller overwrote the returned array, the same call gives %s, before %s" % (desc, repr(again) if not again.ok else short(again.value, 160), short(first, 160)), tags + ["result-aliased"])
+        if op in ("col_counts", "mean0", "np.mean0") and dt.kind != "b":
+            derived = attempt(lambda: np.positive(ra).col_counts())
+            if not derived.ok or np.asarray(derived.value).tolist() != [len(c) for c in cols]:
+                return violated("%s: after the caller overwrote the returned array, col_counts() of an array derived from it gives %s, expected %s" % (desc, repr(derived) if not derived.ok else short(derived.value, 160), [len(c) for c in cols]), tags + ["result-aliased"])
     return held(tags, n >= 2 and len(set(lens)) >= 2)
 
 
@@ -150,6 +163,8 @@ def gen_case(rng, lens, dtype, op=None, recv="fresh", vclass="small", j=None):
 def directed():
     import random
     rng = random.Random(909)
+    for c in big_cases():
+        yield c
     shapes = [[1], [3], [0, 2, 3], [2, 3, 0], [2, 0, 3], [2, 0, 0, 3], [1, 0, 0], [0, 0, 4], [5, 0, 1, 1], [2, 0, 3, 4], [0, 0, 3, 2], [1, 12], [12, 0, 1, 1], [3, 3, 3], [4, 3, 2, 1], [1, 2, 3, 4]]
     for lens in shapes:
         for dtype in ["int64", "bool", "uint8", "float64", "int8", "uint64", "float32"]:
@@ -166,6 +181,19 @@ def directed():
                 yield gen_case(rng, lens, "int64", op, recv)
             for j in range(max(lens)):
                 yield gen_case(rng, lens, "int16", "getcol", recv, j=j)
+
+
+def big_cases():
+    """element counts exactly on / next to a multiple of 65536 (block sizes), a few hundred rows"""
+    import random
+    rng = random.Random(9090)
+    for total in (65536, 131072, 65535, 65537):
+        lens = []
+        while sum(lens) < total:
+            lens.append(min(rng.choice([0, 100, 255, 256, 257, 300, 512]), total - sum(lens)))
+        for dtype, op in (("int32", "sum0"), ("bool", "np.sum0"), ("float64", "mean0")):
+            vals = [(i * 7 + 3) % 11 for i in range(total)] if dtype != "bool" else [i % 3 == 0 for i in range(total)]
+            yield mk_case(lens, dtype, vals, op, 0, "fresh", "small")
 
 
 def random_case(rng, tier):
